@@ -147,9 +147,9 @@ __CPROVER_ensures((NV_G_IN(self) && nv_match_g) ==> \
                   (0 <= nv_pos_g && nv_pos_g < NV_RET.n && nv_pos_g <= nv_g_f && NV_RET.g.id == NV_ENTRY(self, nv_g_f).first.id)) \
 __CPROVER_ensures((NV_G_IN(self) && !nv_match_g) ==> NV_RET.n <= self->m_protos.n - 1)
 #define NV_LOOP_factory_ids_1 \
-__CPROVER_assigns(__begin0, ret.n, ret.g, nv_pos_g, nv_cur) \
-__CPROVER_loop_invariant(0 <= nv_cur && nv_cur <= self->m_protos.n && __begin0 == self->m_protos.p + nv_cur && \
-                         __end0 == self->m_protos.p + self->m_protos.n && 0 <= ret.n && ret.n <= nv_cur && \
+__CPROVER_assigns(NV_LOOPVAR_factory_ids_1, ret.n, ret.g, nv_pos_g, nv_cur) \
+__CPROVER_loop_invariant(0 <= nv_cur && nv_cur <= self->m_protos.n && NV_LOOPVAR_factory_ids_1 == self->m_protos.p + nv_cur && \
+                         0 <= ret.n && ret.n <= nv_cur && \
                          ((NV_G_IN(self) && nv_g_f < nv_cur && nv_match_g) ==> \
                           (0 <= nv_pos_g && nv_pos_g < ret.n && nv_pos_g <= nv_g_f && ret.g.id == NV_ENTRY(self, nv_g_f).first.id)) && \
                          ((NV_G_IN(self) && nv_g_f < nv_cur && !nv_match_g) ==> ret.n <= nv_cur - 1)) \
